@@ -30,7 +30,8 @@ OPTION_GLOBALS = {"split_sto", "size_flag", "push_flag", "pop_flag", "revert_fla
 
 BLOCKS = os.environ.get("C12_BLOCKS", "PUSH 3 PUSH 4 ADD SWAP1 POP|PUSH 0 DUP2 ADD PUSH 3 MUL|DUP3 DUP3 MSTORE DUP2 MLOAD DUP1 DUP3 ADD|DUP2 DUP2 SSTORE DUP1 SLOAD PUSH 1 ADD|"
                         "PUSH 20 DUP2 KECCAK256 DUP2 MLOAD LT ISZERO|CALLER PUSH ffffffffffffffffffffffffffffffffffffffff AND DUP2 EQ|"
-                        "DUP1 DUP3 LOG1 PUSH 5 DUP2 MSTORE|PUSH 1 DUP2 SHL DUP3 MUL|DUP2 DUP2 SUB ISZERO ISZERO").split("|")
+                        "DUP1 DUP3 LOG1 PUSH 5 DUP2 MSTORE|PUSH 1 DUP2 SHL DUP3 MUL|DUP2 DUP2 SUB ISZERO ISZERO|DUP2 DUP2 ADD SWAP2 SUB SSTORE|"
+                        "DUP2 DUP2 MUL DUP1 DUP4 MSTORE PUSH 1 ASSIGNIMMUTABLE 5").split("|")
 
 
 def _params():
@@ -132,6 +133,36 @@ for modname, mod in (("gasol_optimization", G), ("ir_block", ir_block)):
         v = getattr(mod, g)
         if isinstance(v, list) and all(isinstance(x, str) for x in v) and not g.startswith("opcodes"):
             LISTS.append((mod, g, "list"))
+# dictionary-valued globals, typed after the shapes they really take: a native pre-run over blocks chosen to fill them
+# (repeated commutative terms, immutables, stores of computed values) records the key/value types of every dict global
+SHAPE_BLOCKS = ["DUP2 DUP2 ADD SWAP2 ADD", "DUP2 DUP2 ADD SWAP2 SUB SSTORE", "PUSH 1 ASSIGNIMMUTABLE 5 CALLER", "PUSH 5 PUSH 3 PUSH 2 ADDMOD DUP2 MUL",
+                "DUP3 DUP3 MSTORE DUP2 MLOAD DUP1 DUP3 ADD", "PUSH ff NOT DUP2 AND", "DUP2 DUP2 SSTORE DUP1 SLOAD PUSH 1 ADD"]
+_shapes = {}
+for _t in SHAPE_BLOCKS:
+    try:
+        _b = parse_blocks_from_plain_instructions(_t, "c12s", "c12s")[0]
+        with contextlib.redirect_stdout(io.StringIO()):
+            gasol_asm.compute_original_sfs_with_simplifications(_b, P)
+    except Exception:
+        pass
+    for modname, mod in (("gasol_optimization", G), ("ir_block", ir_block)):
+        for g in _assigned_globals(os.path.join(REPO, "sfs_generator", modname + ".py")):
+            v = getattr(mod, g, None)
+            if isinstance(v, dict) and g not in OPTION_GLOBALS and not g.startswith("opcodes"):
+                for k, x in v.items():
+                    _shapes.setdefault((modname, g), set()).add((type(k).__name__, type(x).__name__))
+DICTS_SS, DICTS_SI, DICTS_IS = [], [], []
+for (modname, g), sh in sorted(_shapes.items()):
+    mod = G if modname == "gasol_optimization" else ir_block
+    if sh <= {("str", "str")}:
+        DICTS_SS.append((mod, g, "dict"))
+    elif sh <= {("str", "int")}:
+        DICTS_SI.append((mod, g, "dict"))
+    elif sh <= {("int", "str")}:
+        DICTS_IS.append((mod, g, "dict"))
+ND = (len(DICTS_SS), len(DICTS_SI), len(DICTS_IS))
+DWHICH = int(os.environ.get("C12_DWHICH", "0"))
+BASE = [_run(i) for i in range(len(BLOCKS))]        # again: the shape probe must not leave anything behind that matters
 NL = len(LISTS)
 WHICH = int(os.environ.get("C12_WHICH", "0")) % max(1, NL)
 INTS = [t for t in TARGETS if t[2] == "int"]
@@ -194,3 +225,47 @@ def independent_reach(blk: int, ints: List[int], bools: List[bool], strs: List[s
     post: not _
     """
     return _havoc_and_run(blk, ints, bools, strs) == BASE[blk]
+
+
+def _havoc_dict_and_run(blk, table, which, items):
+    m, g, _ = table[which]
+    saved = getattr(m, g)
+    try:
+        setattr(m, g, dict(items))
+        return _run(blk)
+    finally:
+        setattr(m, g, saved)
+
+
+from typing import Dict
+
+
+def independent_of_dict_ss(blk: int, which: int, items: Dict[str, str]) -> bool:
+    """
+    one str->str dictionary global at a time holds an arbitrary dictionary with at most one entry
+    pre: 0 <= blk < NBLK
+    pre: which == DWHICH and which < ND[0]
+    pre: len(items) <= 1
+    post: _
+    """
+    return _havoc_dict_and_run(blk, DICTS_SS, which, items) == BASE[blk]
+
+
+def independent_of_dict_si(blk: int, which: int, items: Dict[str, int]) -> bool:
+    """
+    pre: 0 <= blk < NBLK
+    pre: which == DWHICH and which < ND[1]
+    pre: len(items) <= 1
+    post: _
+    """
+    return _havoc_dict_and_run(blk, DICTS_SI, which, items) == BASE[blk]
+
+
+def independent_of_dict_is(blk: int, which: int, items: Dict[int, str]) -> bool:
+    """
+    pre: 0 <= blk < NBLK
+    pre: which == DWHICH and which < ND[2]
+    pre: len(items) <= 1
+    post: _
+    """
+    return _havoc_dict_and_run(blk, DICTS_IS, which, items) == BASE[blk]
